@@ -320,7 +320,7 @@ DepartSometimes ==
 (* ========================================================================== *)
 Ints  == Lo..Hi
 Bnds  == Ints \cup {None}
-Steps == {None, 1, 2, -1}
+Steps == {None, 1, 2, -1, -2}
 
 IntIx   == {I(n) : n \in Ints}
 SliceIx == {S(a, b, c) : a \in Bnds, b \in Bnds, c \in Steps}
@@ -328,7 +328,7 @@ ListIx  == {L(l) : l \in UNION {[1..k -> Ints] : k \in 0..MaxList}}
 
 (* representatives used for the second slot when Pairwise                     *)
 RepS == {S(None, None, None), S(1, None, None), S(None, -1, None), S(None, 2, None), S(-2, None, None),
-         S(None, None, -1), S(None, None, 2), S(0, Hi, None), S(Lo, None, None)}
+         S(None, None, -1), S(None, None, 2), S(None, None, -2), S(0, Hi, None), S(Lo, None, None)}
 RepL == {L(<<>>), L(<<0>>), L(<<-1>>), L(<<0, 1>>), L(<<1, 0>>), L(<<0, 0>>), L(<<-1, 0>>), L(<<2, -3>>)} \cap ListIx
 RepI == {I(0), I(-1), I(Hi - 1)}
 RepP == {<<0, 0>>, <<-1, -1>>, <<1, 2>>, <<Lo, 0>>, <<0, Hi>>}
